@@ -327,8 +327,8 @@ _SETUP_RE = re.compile(r'^(\s*)(%s\d+) = accfg\.setup "(\w+)"( from %\w+)? to \(
 
 def mutate_src(src: str, rng: random.Random):
     """one random small change that keeps the program in the generator's form (validity is checked by the caller with verify()):
-    copy the configuration of another setup / change one value / drop a setup (its launches then run on an earlier state) /
-    add a launch on an earlier state"""
+    copy the configuration of another setup / change one value / change loop bounds / copy a setup+launch group.  (Mutations that
+    produce a launch without its own setup in front are deliberately absent: such programs are outside the properties' quantifier.)"""
     lines = src.split("\n")
     setups = [(i, m) for i, l in enumerate(lines) if (m := _SETUP_RE.match(l))]
     if not setups:
@@ -347,7 +347,13 @@ def mutate_src(src: str, rng: random.Random):
         return "\n".join(lines)
     if k < 0.24:
         # copy of a setup + launch + await (fresh names) at another position
-        pos = rng.randrange(next(j for j, l in enumerate(lines) if l.startswith("func.func @f")) + 1, end + 1)
+        start = next(j for j, l in enumerate(lines) if l.startswith("func.func @f")) + 1
+        # only at group boundaries (never between a setup and its launches / a launch and its await)
+        ok_pos = [j for j in range(start, end + 1)
+                  if re.match(r"\s*(%s\d+ = accfg\.setup|scf\.for|scf\.if|%\w+(, %\w+)* = scf\.(for|if)|func\.return|\})", lines[j])]
+        if not ok_pos:
+            return None
+        pos = rng.choice(ok_pos)
         u = rng.randrange(10 ** 6)
         ind2 = re.match(r"\s*", lines[pos]).group(0) if pos < len(lines) else "  "
         grp = [f'{ind2}%s{u} = accfg.setup "{acc}" to ({params}) : {ty}']
@@ -359,7 +365,7 @@ def mutate_src(src: str, rng: random.Random):
         lines[pos:pos] = grp
         return "\n".join(lines)
     k = (k - 0.24) / 0.76
-    if k < 0.3:
+    if k < 0.6:
         same = [mm for j, mm in setups if mm.group(3) == acc and j != i]
         if not same:
             return None
@@ -369,7 +375,7 @@ def mutate_src(src: str, rng: random.Random):
             q = rng.randrange(len(new))
             new[q] = old[q]
         lines[i] = f'{ind}{name} = accfg.setup "{acc}"{frm or ""} to ({", ".join(new)}) : {ty}'
-    elif k < 0.5:
+    elif k < 1.0:
         ps = params.split(", ")
         q = rng.randrange(len(ps))
         vals = sorted(set(re.findall(r"%(?:x|v|r|p)\d+", src)))
@@ -378,24 +384,8 @@ def mutate_src(src: str, rng: random.Random):
             return None
         ps[q] = f'"{mm.group(1)}" = {rng.choice(vals)} : i32'
         lines[i] = f'{ind}{name} = accfg.setup "{acc}"{frm or ""} to ({", ".join(ps)}) : {ty}'
-    elif k < 0.75:
-        earlier = [mm.group(2) for j, mm in setups if j < i and mm.group(3) == acc]
-        if not earlier:
-            return None
-        tgt = rng.choice(earlier)
-        del lines[i]
-        lines = [re.sub(re.escape(name) + r"\b", tgt, l) for l in lines]
     else:
-        if i + 1 >= end:
-            return None
-        pos = rng.randrange(i + 1, end + 1)
-        t = f"%tm{rng.randrange(10 ** 6)}"
-        ind2 = re.match(r"\s*", lines[pos]).group(0) if pos < len(lines) else "  "
-        if '"accfg.launch"(%lv' in src:
-            la = f'{ind2}{t} = "accfg.launch"(%lv, {name}) <{{param_names = ["launch"], accelerator = "{acc}"}}> : (i5, {st_ty(acc)}) -> !accfg.token<"{acc}">'
-        else:
-            la = f'{ind2}{t} = "accfg.launch"({name}) <{{param_names = [], accelerator = "{acc}"}}> : ({st_ty(acc)}) -> !accfg.token<"{acc}">'
-        lines[pos:pos] = [la, f'{ind2}"accfg.await"({t}) : (!accfg.token<"{acc}">) -> ()']
+        return None
     return "\n".join(lines)
 
 
